@@ -34,6 +34,9 @@ def _setup():
     return _mods
 
 
+FLEET = []   # when non-empty, DF17 frames carry one of these addresses (set per run by generate())
+
+
 def gen_frame_hex(rng):
     k = rng.random()
     style = rng.random()
@@ -50,7 +53,8 @@ def gen_frame_hex(rng):
         return rng.getrandbits(nbits)
 
     if k < 0.45:
-        data = "%02X" % ((17 << 3) | rng.randrange(8)) + "%06X" % rng.getrandbits(24) + "%014X" % body(56)
+        addr = rng.choice(FLEET) if FLEET else "%06X" % rng.getrandbits(24)
+        data = "%02X" % ((17 << 3) | rng.randrange(8)) + addr + "%014X" % body(56)
         return R.frame_with_parity(data)
     if k < 0.7:
         df = rng.choice([20, 21])
@@ -270,9 +274,13 @@ def generate(run_seed, tier):
     if rw.random() < 0.04:
         return generate_dense(rw, rn, tier)
     nwin = rw.choice([1, 2, 2, 3, 4, 6])
-    soak = tier != "quick" and rw.random() < 0.01
+    soak = rw.random() < (0.01 if tier != "quick" else 0.004)
     if soak:
-        nwin = rw.choice([40, 120])   # one reader instance over many buffers (counters, slow drift of state)
+        nwin = rw.choice([40, 120]) if tier != "quick" else 40   # one reader instance over many buffers (counters, slow drift of state)
+    # a small fleet: the same few transponders are heard again and again
+    del FLEET[:]
+    if rw.random() < 0.35:
+        FLEET.extend("%06X" % rw.getrandbits(24) for _ in range(rw.choice([1, 1, 2, 3])))
     sizes = [2000, 3000, 4096, 8000] + ([20000] if tier != "quick" or rw.random() < 0.1 else [])
     if tier != "quick" and rw.random() < 0.02:
         sizes = [204800]
@@ -286,6 +294,8 @@ def generate(run_seed, tier):
     for wi in range(nwin):
         n = rw.choice(sizes)
         k = rw.choice([0, 1, 1, 2, 3, 5]) if wi > 0 else rw.choice([1, 1, 2, 3])
+        if soak:
+            k = rw.choice([3, 5, 8])   # a few hundred frames over the life of the reader
         k = min(k, left)
         # a window in which the noise level may have dropped starts with two
         # noise-only 100-us windows: the receiver must have heard the new level
@@ -293,6 +303,21 @@ def generate(run_seed, tier):
         frames = place_frames(rw, k, n, first_min, gen_frame_hex, p_corrupt) if k else []
         left -= len(frames)
         windows.append({"n": n, "nseed": rn.getrandbits(31), "frames": frames})
+    del FLEET[:]
+    if soak and not decreasing:
+        # amplitude profile over the life of the reader: long weak stretch then
+        # strong frames, or the reverse, or mixed (left as drawn)
+        prof = rw.choice(["weak_then_strong", "strong_then_weak", "mixed"])
+        cut = int(len(windows) * 0.8)
+        for wi, w in enumerate(windows):
+            for f in w["frames"]:
+                if prof == "weak_then_strong":
+                    f["amp"] = rw.choice([0.3, 0.31, 0.33]) if wi < cut else rw.choice([1.3, 1.4])
+                elif prof == "strong_then_weak":
+                    f["amp"] = rw.choice([1.3, 1.4]) if wi < cut else rw.choice([0.3, 0.33])
+                if prof != "mixed":
+                    f["ripple"] = 0.0
+                    f.pop("drop", None)
     noise = finish_noise(windows, shape, snr)
     if decreasing:
         decreasing_levels(rn, windows, shape, noise)
@@ -434,6 +459,8 @@ def execute(sc, keep_log=False):
         if "pk" in w and wi > 0 and w["pk"] < sc["windows"][wi - 1].get("pk", 0) * 0.5 and w["frames"]:
             stats.c["probe.noise_level_dropped_by_half_or_more"] += 1
         stats.c["noise." + no["shape"]] += 1
+        if wi == 39:
+            stats.c["probe.one_reader_over_40_or_more_buffers"] += 1
         if no.get("regime") == "dense" and wi > 0 and len(w["frames"]) >= 20:
             busy = [(f["start"], f["start"] + rf.frame_samples(len(f["hex"]) * 4)) for f in w["frames"]]
             if not any(all(b <= a0 or a >= a0 + 200 for a, b in busy) for a0 in range(0, w["n"] - 199, 200)):
